@@ -59,9 +59,11 @@ def scenarios(tier, seed):
         n = d + 1
         for start in list(range(n)) + [-1]:
             for stop in list(range(n)) + [-1]:
+              # the unrelated directory hangs off the sandbox root (-2) or off a level of the chain
+              for ua in ([-2] + list(range(n)) if (start == -1 or stop == -1) else [-2]):
                 per_level = []
                 for l in range(n):
-                    relevant = (start == -1 and False) or (start >= 0 and l <= start)
+                    relevant = (start >= 0 and l <= start) or (start == -1 and l <= ua)
                     if not relevant:
                         per_level.append([none])
                     else:
@@ -72,7 +74,7 @@ def scenarios(tier, seed):
                     combos = rnd.sample(combos, (3000 if tier == "quick" else 12000) // len(uopts))
                 for lv in combos:
                     for u in uopts:
-                        scen.append({"id": len(scen) + 1, "levels": list(lv), "u": u, "start": start, "stop": stop})
+                        scen.append({"id": len(scen) + 1, "levels": list(lv), "u": u, "start": start, "stop": stop, "ua": ua})
     if tier != "quick":
         # depth 4, sampled
         for _ in range(60000):
@@ -80,14 +82,14 @@ def scenarios(tier, seed):
             start = rnd.choice(list(range(n)) + [-1])
             stop = rnd.choice(list(range(n)) + [-1])
             scen.append({"id": len(scen) + 1, "levels": [rnd.choice(dir_opts(True)) for _ in range(n)], "u": rnd.choice(dir_opts(True)),
-                         "start": start, "stop": stop})
+                         "start": start, "stop": stop, "ua": rnd.choice([-2] + list(range(n)))})
     # other spellings of the same two directories (Find.tla: Spellings): trailing separator, `.` / `x/..` elements, relative to a
     # working directory at or above the directory (every such cwd)
     base = list(scen)
     per_pair = 1500 if tier == "quick" else 12000
     for ssp, tsp in SPELLINGS[1:]:
         for b in rnd.sample(base, min(per_pair, len(base))):
-            anc = lambda l: ([-1] if l == -1 else list(range(l + 1))) + [-2]
+            anc = lambda l: ([-1] + list(range(b.get("ua", -2) + 1)) if l == -1 else list(range(l + 1))) + [-2]
             cw = set(anc(b["start"])) if ssp == "rel" else None
             if tsp == "rel":
                 cw = set(anc(b["stop"])) if cw is None else cw & set(anc(b["stop"]))
@@ -111,10 +113,11 @@ def scenarios(tier, seed):
     seen, out = set(), []
     for s in scen:
         s.setdefault("through", False)
+        s.setdefault("ua", -2)
         s.setdefault("startSp", "clean")
         s.setdefault("stopSp", "clean")
         s.setdefault("cwd", -2)
-        k = json.dumps({x: s[x] for x in ("levels", "u", "start", "stop", "startSp", "stopSp", "cwd", "through")}, sort_keys=True)
+        k = json.dumps({x: s[x] for x in ("levels", "u", "start", "stop", "startSp", "stopSp", "cwd", "through", "ua")}, sort_keys=True)
         if k not in seen:
             seen.add(k)
             s["id"] = len(out) + 1
@@ -139,7 +142,7 @@ def tla_rec(s, r):
     if r.get("outcome") == "driver-error":
         raise Machinery("find driver error: %s" % r.get("err"))
     return {"id": s["id"], "spok": [l["spok"] for l in s["levels"]], "uspok": s["u"]["spok"], "start": s["start"], "stop": s["stop"],
-            "startSp": s["startSp"], "stopSp": s["stopSp"], "cwd": s["cwd"], "outcome": r.get("outcome"), "level": r.get("level", -5)}
+            "startSp": s["startSp"], "stopSp": s["stopSp"], "cwd": s["cwd"], "ua": s["ua"], "outcome": r.get("outcome"), "level": r.get("level", -5)}
 
 
 def judge(ctx, recs, k=0):
@@ -164,7 +167,7 @@ def run(ctx):
     m = mc(ctx, d_all, "fixed")
     if m.error or m.violated:
         raise Machinery("Find model check failed: %s %s" % (m.violated, (m.error or "")[:1500]))
-    m3 = mc(ctx, d_all + 1, "fixed", spellings="CleanOnly")
+    m3 = mc(ctx, d_all + 1, "fixed", spellings="CleanOnly", liveness=(tier != "quick"))    # termination: depth 1 in quick, the ranking proof for every depth
     if m3.error or m3.violated:
         raise Machinery("Find model check (clean paths, depth %d) failed: %s %s" % (d_all + 1, m3.violated, (m3.error or "")[:1500]))
     m.distinct += m3.distinct
@@ -175,6 +178,9 @@ def run(ctx):
     strs = mc(ctx, 1, "strings", liveness=True, timeout=600)
     if strs.violated != "Correct":
         raise Machinery("vacuity probe: the walk that compares path strings is not refuted by the spellings (%s)" % (strs.violated or strs.error))
+    noab = mc(ctx, 1, "noabove", liveness=False, timeout=600, spellings="CleanOnly")
+    if noab.violated != "Correct":
+        raise Machinery("vacuity probe: the walk that climbs above the stop directory is not refuted (%s)" % (noab.violated or noab.error))
     log("Find MC: %d distinct states (every configuration, start, stop); terminates; pinned variant refuted (%s)" % (m.distinct, pin.violated))
     proof = None
     if tier != "quick":
@@ -222,8 +228,8 @@ def run(ctx):
             ctx.unreproduced = getattr(ctx, "unreproduced", 0) + 1
             continue
         vlib.report(ctx, "Conforms_C17:%s:%s:%s-%s" % (again.get("outcome"), "unconstrained" if shape[2] else ("start=stop" if shape[1] else "below"), s["startSp"], s["stopSp"]),
-                    "Find(start=L%s [%s], stop=L%s [%s], cwd=L%s%s) over %d levels %s (U=%s) => %s level=%s" % (
-                        s["start"], s["startSp"], s["stop"], s["stopSp"], s["cwd"], ", chain through directories named spokfile" if s["through"] else "",
+                    "Find(start=L%s [%s], stop=L%s [%s], cwd=L%s, U under L%s%s) over %d levels %s (U=%s) => %s level=%s" % (
+                        s["start"], s["startSp"], s["stop"], s["stopSp"], s["cwd"], s["ua"], ", chain through directories named spokfile" if s["through"] else "",
                         len(s["levels"]), [l for l in s["levels"] if l["spok"] != "none"][:6] if len(s["levels"]) > 8 else s["levels"], s["u"],
                         again.get("outcome"), again.get("level")),
                     {"property": "C17", "family": "find", "scenario": s, "observed": again})
@@ -246,7 +252,7 @@ def run(ctx):
                 "not below stop (%d), as computed by TLC" % (2 if tier == "quick" else 4, sum(1 for s, _ in pairs if (s["startSp"], s["stopSp"]) != ("clean", "clean")), ncf, nun),
         "model": {"module": "Find", "depth": 2 if tier == "quick" else 3, "distinct_states": m.distinct, "liveness": "Terminates",
                   "spellings": "all 9 pairs at depth %d; clean at depth %d" % (d_all, d_all + 1),
-                  "pinned_variant_refuted_by": pin.violated, "strings_variant_refuted_by": strs.violated},
+                  "pinned_variant_refuted_by": pin.violated, "strings_variant_refuted_by": strs.violated, "noabove_variant_refuted_by": noab.violated},
         "judge": {"module": "FindJudge", "relation": "Conforms_C17", "not_run_after_hangs": notrun},
         "selftest_corrupted_record_rejected": st,
         "exhaustive": tier == "quick",
@@ -261,6 +267,7 @@ def replay(ctx, path):
     s.setdefault("stopSp", "clean")
     s.setdefault("cwd", -2)
     s.setdefault("through", False)
+    s.setdefault("ua", -2)
     again = drive(ctx, driver, [s], 0)[0]
     v = judge(ctx, [tla_rec(s, again)])
     log("observed: %s" % again)
